@@ -50,7 +50,15 @@ Definition model_run (k : nat) (xs : list Q) : list tup :=
   | 8%nat => run collect_step [] xs
   | _ => map (fun _ => []) xs end.
 Definition prefixes (xs : list Q) : list (list Q) := map (fun n => firstn n xs) (seq 0 (S (length xs))).
-Definition check (c : case) : verdict :=
+(* kind 9: a long run through the sum sink: all running outputs (linear scan) and only the final finalize *)
+Fixpoint running_sums (acc : Q) (xs : list Q) : list tup :=
+  match xs with [] => [] | x :: r => let a := Qred (acc + x) in [a] :: running_sums a r end.
+Definition check_long (c : case) : verdict :=
+  let ok_run := list_eqb tup_eqb (map (fun m => [m]) (run sum_step None (cxs c))) (crun c) in
+  let ok_fin := list_eqb (opt_eqb tup_eqb) [option_map (fun m => [m]) (exec sum_step None (cxs c))] (cfins c) in
+  let spec := list_eqb tup_eqb (running_sums 0 (cxs c)) (crun c) && list_eqb (opt_eqb tup_eqb) [Some [qsum (cxs c)]] (cfins c) in
+  mkv (negb (cpanic c) && ok_run && ok_fin) (negb (cpanic c) && spec) true.
+Definition check_short (c : case) : verdict :=
   let k := ckind c in
   let out_ok := negb (cpanic c) && list_eqb tup_eqb (model_run k (cxs c)) (crun c)
                 && list_eqb (opt_eqb tup_eqb) (map (model_fin k) (prefixes (cxs c))) (cfins c) in
@@ -58,3 +66,4 @@ Definition check (c : case) : verdict :=
                  && list_eqb (opt_eqb tup_eqb) (map (spec_fin k) (prefixes (cxs c))) (cfins c)
                  && list_eqb tup_eqb (map (spec_run k) (tl (prefixes (cxs c)))) (crun c) in
   mkv out_ok spec_ok ((3 <=? length (cxs c))%nat && negb (all_eq (cxs c))).
+Definition check (c : case) : verdict := if (ckind c =? 9)%nat then check_long c else check_short c.
